@@ -133,6 +133,11 @@ impl J {
     pub fn obj(items: Vec<(&str, J)>) -> J {
         J::Obj(items.into_iter().map(|(k, v)| (k.to_string(), v)).collect())
     }
+    /// builder-style push
+    pub fn with(mut self, k: &str, v: J) -> J {
+        self.push(k, v);
+        self
+    }
     pub fn push(&mut self, k: &str, v: J) {
         if let J::Obj(o) = self {
             o.push((k.to_string(), v));
